@@ -52,6 +52,11 @@ def run(ctx):
     cubic(ctx)
     arc_candidates(ctx)
     drawn_only(ctx)
+    # with_stroke grows the box by half the implicit stroke width: width x sqrt|det| of the transform - C14's R14.5
+    ctx.rule("R08.7", "the stroke the box grows by is the cascaded width scaled by sqrt|det| (obligations shared with C14 R14.5)")
+    from . import c14
+
+    c14.paint(ctx.renamed("R08.7"))
 
 
 # --------------------------------------------------------------------------- R08.1
